@@ -133,7 +133,7 @@ Definition accept_uuid (s : word) : bool :=
   let n := List.length s in
   if Nat.eqb n 36 then uuid36_body s
   else if Nat.eqb n 45 then word_eqb (map to_lower (firstn 9 s)) urn_prefix && uuid36_body (skipn 9 s)
-  else if Nat.eqb n 38 then uuid36_body (skipn 1 s)       (* first and last byte never examined *)
+  else if Nat.eqb n 38 then (byte_at s 0 =? 123) && (byte_at s 37 =? 125) && uuid36_body (skipn 1 s)   (* {...} *)
   else if Nat.eqb n 32 then forallb is_xdigit s && variant_ok (byte_at s 16)
   else false.
 
@@ -219,9 +219,10 @@ Definition expected_format_table : list (string * string) :=
 Definition expected_format_frame : list string :=
   [ "var err error"; "switch f"; "if err!=nil return InvalidFormatError(name,val,f,err)"; "return nil" ]%string.
 
-(* validateUUID: google/uuid Parse, then the RFC 4122 variant test *)
+(* validateUUID: google/uuid Parse, the braces of the 38-byte form, then the RFC 4122 variant test *)
 Definition expected_uuid_steps : list string :=
   [ "u,err:=googleuuid.Parse(uuid)"; "if err!=nil return err";
+    "if len(uuid)==38&&(uuid[0]!='{'||uuid[37]!='}') return err";
     "if u.Variant()!=googleuuid.RFC4122 return err"; "return nil" ]%string.
 
 (* ValidatePattern: the statement sequence, locks included *)
